@@ -41,7 +41,7 @@ check("C04", "streamsim", "exploration",
   "deterministic simulation: fault-injecting simulated input stream + step-budget scheduler hook + truncation-equivalence reference", "DESIGN.md §4 C04")
 check("C05", "streamsim", "fault_enumeration",
   "For each sampled text (token soups over every token spelling, CR/LF/CRLF mixes, multi-byte and invalid UTF-8, comments, unterminated strings, bad escapes, mutated statements) EVERY truncation offset is enumerated as a crash point, for EOF and for error terminals, under three delivery policies and a drawn bufio size. After every Scan the bytes consumed are computed from I/O accounting (delivered - buffered - pending pushback), giving token extents independent of the positions under test. Invariants: EOF within len+2 tokens and sticky; extents tile the text exactly; every token position equals an independent zero-based line/column counter (CRLF / lone CR one break); tokens far enough from the cut are identical to the fault-free scan; ParseError positions (all three entry points) point at the token they name and an error value does not change when a later parse fails; the token stream is identical under every delivery schedule and terminal kind; a scanner created after another one reached EOF scans its text as it would alone. Exhaustive over crash points per text, sampled over texts.",
-  "Token extents rely on reading bufio.Reader.Buffered() and the scanner's pushback ring through reflect/unsafe; if those fields cannot be found the tiling probe is reported off. Five position defects that the repository's own tests encode are listed in known_findings.json (each keyed by what the wrong position IS, so any other wrong position is still a violation).",
+  "Token extents rely on reading bufio.Reader.Buffered() and the scanner's pushback ring through reflect/unsafe; if those fields cannot be found the tiling probe is reported off. Position defects that the repository's own tests encode are listed in known_findings.json (six keys) (each keyed by what the wrong position IS, so any other wrong position is still a violation).",
   "deterministic simulation: crash-point enumeration over a simulated input stream with I/O-accounting tiling oracle", "DESIGN.md §4 C05")
 
 check("C13", "opsim", "exploration",
@@ -86,7 +86,7 @@ def main():
       "engines": engines,
       "checks": [CHECKS[k] for k in sorted(CHECKS)],
       "not_applicable": na,
-      "notes": "Technique: deterministic simulation with fault injection. Exit codes of every command: 0 held / 1 VIOLATION / 2 infrastructure. Known findings: /verif/known_findings.json (five open C05 position findings that the repository's own tests encode; ten fix: commits in /repo recorded as fixed). Sensitivity: 84 seeded changes in /verif/seeded (RESULTS.md), all reported; 31 property-preserving refactorings in /verif/benign, all silent. ./vsim selftest determinism|sensitivity. See DESIGN.md.",
+      "notes": "Technique: deterministic simulation with fault injection. Exit codes of every command: 0 held / 1 VIOLATION / 2 infrastructure. Known findings: /verif/known_findings.json (five open C05 position findings that the repository's own tests encode; ten fix: commits in /repo recorded as fixed). Sensitivity: 111 seeded changes in /verif/seeded (RESULTS.md), all reported; 31 property-preserving refactorings in /verif/benign, all silent. ./vsim selftest determinism|sensitivity. See DESIGN.md.",
     }
     json.dump(m, open("/verif/MANIFEST.json", "w"), indent=1)
     print("MANIFEST.json written:", len(m["checks"]), "checks,", len(na), "not applicable")
